@@ -121,7 +121,7 @@ Theorem exec_action_panic_sites s a :
 Proof.
   intros Hh Hp. unfold exec_action in Hp. rewrite Hh in Hp. destruct a; cbn [excluded]; cbn in Hp.
   - (* insert *)
-    unfold do_insert in Hp.
+    unfold do_insert in Hp. destruct (objs s h) as [obx|] eqn:Eox; [cbn in Hp; congruence|].
     change (slots (set_objs s (fupd (objs s) h (Some (mkObj s0 true))))) with (slots s) in Hp.
     destruct (vacant_entry (slots s)) as [[i sl]|] eqn:Ev; [|right; right; reflexivity].
     destruct (vacant_entry_nth _ _ _ Ev) as [e En]. rewrite En in Hp.
